@@ -3,8 +3,11 @@
 //! For every generated challenger history the harness
 //!  * drives the real `p3_challenger::DuplexChallenger` (native side, the oracle of the property),
 //!  * builds a circuit with the real `CircuitChallenger` in which every observed value is a
-//!    *public input* (so nothing is constant-folded), runs it with `CircuitRunner::run` and reads
-//!    the sampled targets back through `tag`/`probe`,
+//!    *public input* (so nothing is constant-folded) or a *derived target* (`Op::ObsDer`: an
+//!    expression over earlier sampled / observed targets of the same history built with the real
+//!    `add` / `mul` / `mul_add` / `select` / `recompose_base_coeffs_to_ext`, as the verifier does
+//!    before `observe_ext`; the native side computes the value from ITS OWN samples), runs it with
+//!    `CircuitRunner::run` and reads the sampled targets back through `tag`/`probe`,
 //!  * records every (input → output) pair the real permutation produced on either side
 //!    (a recording wrapper around the real Poseidon1/Poseidon2 instance).
 //!
@@ -24,7 +27,7 @@ use std::sync::{Arc, Mutex};
 
 use p3_baby_bear::BabyBear;
 use p3_challenger::{CanObserve, CanSample, CanSampleBits, DuplexChallenger, FieldChallenger};
-use p3_circuit::CircuitBuilder;
+use p3_circuit::{CircuitBuilder, ExprId};
 use p3_circuit::ops::{
     Poseidon1Config, Poseidon2Config, generate_poseidon1_trace, generate_poseidon2_trace,
     generate_recompose_trace,
@@ -96,6 +99,101 @@ pub enum Op {
     Bits(usize),
     Pow(usize, u64),
     Clear,
+    /// `observe_ext` of a DERIVED target (an expression over earlier sampled / observed values,
+    /// built with the real `CircuitBuilder` arithmetic / `select` / recompose, the way the verifier
+    /// does); natively the value is computed from the native challenger's own samples.
+    ObsDer(Ex),
+}
+
+/// Expression over values of earlier ops of the same history (referenced by op index).
+#[derive(Clone, Debug, PartialEq)]
+pub enum Ex {
+    /// the value sampled / observed at op `k` (`s`, `se`, `o`, `oe`, `od`): in the circuit the SAME target
+    Ref(usize),
+    Add(Box<Ex>, Box<Ex>),
+    Mul(Box<Ex>, Box<Ex>),
+    /// `mul_add(a, b, c) = a * b + c`
+    MulAdd(Box<Ex>, Box<Ex>, Box<Ex>),
+    /// `select(bit j of the sample_bits at op k, t, s)`
+    Sel(usize, usize, Box<Ex>, Box<Ex>),
+    /// `recompose_base_coeffs_to_ext` of the base values at these ops (`s` / `o`), D of them
+    Recomp(Vec<usize>),
+}
+
+impl Ex {
+    fn text(&self) -> String {
+        match self {
+            Ex::Ref(k) => format!("#{k}"),
+            Ex::Add(a, b) => format!("add({},{})", a.text(), b.text()),
+            Ex::Mul(a, b) => format!("mul({},{})", a.text(), b.text()),
+            Ex::MulAdd(a, b, c) => format!("mad({},{},{})", a.text(), b.text(), c.text()),
+            Ex::Sel(k, j, t, s) => format!("sel(#{k}.{j},{},{})", t.text(), s.text()),
+            Ex::Recomp(ks) => format!("rc({})", ks.iter().map(|k| format!("#{k}")).collect::<Vec<_>>().join(",")),
+        }
+    }
+    fn to_json(&self) -> Value {
+        match self {
+            Ex::Ref(k) => json!(["r", k]),
+            Ex::Add(a, b) => json!(["add", a.to_json(), b.to_json()]),
+            Ex::Mul(a, b) => json!(["mul", a.to_json(), b.to_json()]),
+            Ex::MulAdd(a, b, c) => json!(["mad", a.to_json(), b.to_json(), c.to_json()]),
+            Ex::Sel(k, j, t, s) => json!(["sel", k, j, t.to_json(), s.to_json()]),
+            Ex::Recomp(ks) => json!(["rc", ks]),
+        }
+    }
+    fn from_json(v: &Value) -> Option<Ex> {
+        let a = v.as_array()?;
+        let sub = |i: usize| -> Option<Box<Ex>> { Some(Box::new(Ex::from_json(a.get(i)?)?)) };
+        Some(match a.first()?.as_str()? {
+            "r" => Ex::Ref(a.get(1)?.as_u64()? as usize),
+            "add" => Ex::Add(sub(1)?, sub(2)?),
+            "mul" => Ex::Mul(sub(1)?, sub(2)?),
+            "mad" => Ex::MulAdd(sub(1)?, sub(2)?, sub(3)?),
+            "sel" => Ex::Sel(a.get(1)?.as_u64()? as usize, a.get(2)?.as_u64()? as usize, sub(3)?, sub(4)?),
+            "rc" => Ex::Recomp(a.get(1)?.as_array()?.iter().filter_map(|x| x.as_u64().map(|y| y as usize)).collect()),
+            _ => return None,
+        })
+    }
+    /// The expression after op `removed` was deleted from the history (None if it refers to that op).
+    fn without(&self, removed: usize) -> Option<Ex> {
+        let ix = |k: usize| -> Option<usize> {
+            if k == removed { None } else if k > removed { Some(k - 1) } else { Some(k) }
+        };
+        Some(match self {
+            Ex::Ref(k) => Ex::Ref(ix(*k)?),
+            Ex::Add(a, b) => Ex::Add(Box::new(a.without(removed)?), Box::new(b.without(removed)?)),
+            Ex::Mul(a, b) => Ex::Mul(Box::new(a.without(removed)?), Box::new(b.without(removed)?)),
+            Ex::MulAdd(a, b, c) => Ex::MulAdd(Box::new(a.without(removed)?), Box::new(b.without(removed)?), Box::new(c.without(removed)?)),
+            Ex::Sel(k, j, t, s) => Ex::Sel(ix(*k)?, *j, Box::new(t.without(removed)?), Box::new(s.without(removed)?)),
+            Ex::Recomp(ks) => Ex::Recomp(ks.iter().map(|k| ix(*k)).collect::<Option<Vec<_>>>()?),
+        })
+    }
+    /// shape label for the coverage histogram
+    fn shape(&self) -> &'static str {
+        match self {
+            Ex::Ref(_) => "ref",
+            Ex::Add(..) => "add",
+            Ex::Mul(..) => "mul",
+            Ex::MulAdd(..) => "mad",
+            Ex::Sel(..) => "sel",
+            Ex::Recomp(_) => "rc",
+        }
+    }
+}
+
+/// History without op `i`, references re-indexed (None if a later op refers to op `i`).
+fn remove_op(ops: &[Op], i: usize) -> Option<Vec<Op>> {
+    let mut out = Vec::with_capacity(ops.len() - 1);
+    for (k, op) in ops.iter().enumerate() {
+        if k == i {
+            continue;
+        }
+        out.push(match op {
+            Op::ObsDer(e) if k > i => Op::ObsDer(e.without(i)?),
+            o => o.clone(),
+        });
+    }
+    Some(out)
 }
 
 impl Op {
@@ -108,6 +206,7 @@ impl Op {
             Op::Bits(n) => format!("op sb {n}"),
             Op::Pow(n, w) => format!("op pow {n} {w}"),
             Op::Clear => "op clr".into(),
+            Op::ObsDer(e) => format!("op od {}", e.text()),
         }
     }
     fn kind(&self) -> &'static str {
@@ -119,6 +218,7 @@ impl Op {
             Op::Bits(_) => "sb",
             Op::Pow(..) => "pow",
             Op::Clear => "clr",
+            Op::ObsDer(_) => "od",
         }
     }
     fn to_json(&self) -> Value {
@@ -130,6 +230,7 @@ impl Op {
             Op::Bits(n) => json!(["sb", n]),
             Op::Pow(n, w) => json!(["pow", n, w]),
             Op::Clear => json!(["clr"]),
+            Op::ObsDer(e) => json!(["od", e.to_json()]),
         }
     }
     fn from_json(v: &Value) -> Option<Op> {
@@ -142,6 +243,7 @@ impl Op {
             "sb" => Op::Bits(a.get(1)?.as_u64()? as usize),
             "pow" => Op::Pow(a.get(1)?.as_u64()? as usize, a.get(2)?.as_u64()?),
             "clr" => Op::Clear,
+            "od" => Op::ObsDer(Ex::from_json(a.get(1)?)?),
             _ => return None,
         })
     }
@@ -185,6 +287,8 @@ struct CaseResult {
     cstatus: CStatus,
     circuit: Vec<(usize, COut)>,
     table: Vec<(Vec<u64>, Vec<u64>)>,
+    /// op index -> coefficients of the value the NATIVE side computed (from its own samples) for a derived observe
+    resolved: BTreeMap<usize, Vec<u64>>,
 }
 
 #[derive(Clone, Copy)]
@@ -257,29 +361,131 @@ fn ef_from<BF: PrimeField64, EF: ExtensionField<BF>>(c: &[u64]) -> EF {
 
 // ---------------------------------------------------------------- running one history on the real code
 
-fn run_native<BF, EF, P, const W: usize, const R: usize>(perm: &Rec<P, BF, W>, ops: &[Op]) -> (Vec<(usize, NOut)>, bool)
+/// Native value of a derived expression, from the native challenger's own samples.
+fn eval_native<BF: PrimeField64, EF: ExtensionField<BF>>(
+    e: &Ex,
+    vals: &[Option<EF>],
+    bits: &BTreeMap<usize, (u64, usize)>,
+) -> Option<EF> {
+    let at = |k: usize| -> Option<EF> { vals.get(k).copied().flatten() };
+    Some(match e {
+        Ex::Ref(k) => at(*k)?,
+        Ex::Add(a, b) => eval_native::<BF, EF>(a, vals, bits)? + eval_native::<BF, EF>(b, vals, bits)?,
+        Ex::Mul(a, b) => eval_native::<BF, EF>(a, vals, bits)? * eval_native::<BF, EF>(b, vals, bits)?,
+        Ex::MulAdd(a, b, c) => {
+            eval_native::<BF, EF>(a, vals, bits)? * eval_native::<BF, EF>(b, vals, bits)? + eval_native::<BF, EF>(c, vals, bits)?
+        }
+        Ex::Sel(k, j, t, s) => {
+            let (v, n) = *bits.get(k)?;
+            if *j >= n {
+                return None;
+            }
+            let tv = eval_native::<BF, EF>(t, vals, bits)?;
+            let sv = eval_native::<BF, EF>(s, vals, bits)?;
+            if (v >> j) & 1 == 1 { tv } else { sv }
+        }
+        Ex::Recomp(ks) => {
+            if ks.len() != EF::DIMENSION {
+                return None;
+            }
+            let mut cs = Vec::new();
+            for k in ks {
+                let c = coeffs::<BF, EF>(&at(*k)?);
+                if c[1..].iter().any(|x| *x != 0) {
+                    return None; // only base values are recomposed
+                }
+                cs.push(c[0]);
+            }
+            ef_from::<BF, EF>(&cs)
+        }
+    })
+}
+
+/// Circuit target of a derived expression, built with the real builder calls.
+fn eval_circuit<BF: PrimeField64, EF: ExtensionField<BF>>(
+    cb: &mut CircuitBuilder<EF>,
+    e: &Ex,
+    tg: &[Option<ExprId>],
+    bits: &BTreeMap<usize, Vec<ExprId>>,
+) -> Result<ExprId, String> {
+    let at = |k: usize| -> Result<ExprId, String> { tg.get(k).copied().flatten().ok_or(format!("bad reference #{k}")) };
+    Ok(match e {
+        Ex::Ref(k) => at(*k)?,
+        Ex::Add(a, b) => {
+            let (x, y) = (eval_circuit::<BF, EF>(cb, a, tg, bits)?, eval_circuit::<BF, EF>(cb, b, tg, bits)?);
+            cb.add(x, y)
+        }
+        Ex::Mul(a, b) => {
+            let (x, y) = (eval_circuit::<BF, EF>(cb, a, tg, bits)?, eval_circuit::<BF, EF>(cb, b, tg, bits)?);
+            cb.mul(x, y)
+        }
+        Ex::MulAdd(a, b, c) => {
+            let x = eval_circuit::<BF, EF>(cb, a, tg, bits)?;
+            let y = eval_circuit::<BF, EF>(cb, b, tg, bits)?;
+            let z = eval_circuit::<BF, EF>(cb, c, tg, bits)?;
+            cb.mul_add(x, y, z)
+        }
+        Ex::Sel(k, j, t, s) => {
+            let b = *bits.get(k).and_then(|v| v.get(*j)).ok_or(format!("bad bit reference #{k}.{j}"))?;
+            let tv = eval_circuit::<BF, EF>(cb, t, tg, bits)?;
+            let sv = eval_circuit::<BF, EF>(cb, s, tg, bits)?;
+            cb.select(b, tv, sv)
+        }
+        Ex::Recomp(ks) => {
+            let cs: Vec<ExprId> = ks.iter().map(|k| at(*k)).collect::<Result<_, _>>()?;
+            cb.recompose_base_coeffs_to_ext::<BF>(&cs).map_err(|e| format!("{e:?}"))?
+        }
+    })
+}
+
+#[allow(clippy::type_complexity)]
+fn run_native<BF, EF, P, const W: usize, const R: usize>(
+    perm: &Rec<P, BF, W>,
+    ops: &[Op],
+) -> (Vec<(usize, NOut)>, bool, BTreeMap<usize, Vec<u64>>)
 where
     BF: PrimeField64,
     EF: ExtensionField<BF>,
     P: Permutation<[BF; W]> + Clone,
 {
     let mut out = Vec::new();
+    let mut resolved: BTreeMap<usize, Vec<u64>> = BTreeMap::new();
+    // values the native side saw per op (for derived observes) and sampled bit words
+    let mut vals: Vec<Option<EF>> = vec![None; ops.len()];
+    let mut bitw: BTreeMap<usize, (u64, usize)> = BTreeMap::new();
     let res = catch_unwind(AssertUnwindSafe(|| {
         let mut ch = DuplexChallenger::<BF, Rec<P, BF, W>, W, R>::new(perm.clone());
         for (k, op) in ops.iter().enumerate() {
             match op {
-                Op::Obs(x) => ch.observe(BF::from_u64(*x)),
-                Op::ObsExt(c) => ch.observe_algebra_element(ef_from::<BF, EF>(c)),
+                Op::Obs(x) => {
+                    ch.observe(BF::from_u64(*x));
+                    vals[k] = Some(EF::from(BF::from_u64(*x)));
+                }
+                Op::ObsExt(c) => {
+                    let v = ef_from::<BF, EF>(c);
+                    ch.observe_algebra_element(v);
+                    vals[k] = Some(v);
+                }
+                Op::ObsDer(e) => {
+                    // outside the domain (dangling reference in a hand-written corpus file): nothing promised
+                    let v = eval_native::<BF, EF>(e, &vals, &bitw).expect("derived observe: bad reference");
+                    ch.observe_algebra_element(v);
+                    resolved.insert(k, coeffs::<BF, EF>(&v));
+                    vals[k] = Some(v);
+                }
                 Op::Sample => {
                     let v: BF = ch.sample();
+                    vals[k] = Some(EF::from(v));
                     out.push((k, NOut::S(v.as_canonical_u64())));
                 }
                 Op::SampleExt => {
                     let v: EF = ch.sample_algebra_element();
+                    vals[k] = Some(v);
                     out.push((k, NOut::SE(coeffs::<BF, EF>(&v))));
                 }
                 Op::Bits(n) => {
                     let v: usize = ch.sample_bits(*n);
+                    bitw.insert(k, (v as u64, *n));
                     out.push((k, NOut::SB(v as u64)));
                 }
                 Op::Pow(n, w) => {
@@ -298,7 +504,7 @@ where
             }
         }
     }));
-    (out, res.is_err())
+    (out, res.is_err(), resolved)
 }
 
 #[allow(clippy::type_complexity)]
@@ -319,26 +525,38 @@ where
         let mut cb = CircuitBuilder::<EF>::new();
         enable(&mut cb);
         let mut ch = mk();
+        // target per op (for derived observes) and sampled bit targets
+        let mut tg: Vec<Option<ExprId>> = vec![None; ops.len()];
+        let mut bitt: BTreeMap<usize, Vec<ExprId>> = BTreeMap::new();
         for (k, op) in ops.iter().enumerate() {
             match op {
                 Op::Obs(x) => {
                     let t = cb.public_input();
                     pubs.push(EF::from(BF::from_u64(*x)));
                     RecursiveChallenger::<BF, EF>::observe(&mut ch, &mut cb, t);
+                    tg[k] = Some(t);
                 }
                 Op::ObsExt(c) => {
                     let t = cb.public_input();
                     pubs.push(ef_from::<BF, EF>(c));
                     RecursiveChallenger::<BF, EF>::observe_ext(&mut ch, &mut cb, t);
+                    tg[k] = Some(t);
+                }
+                Op::ObsDer(e) => {
+                    let t = eval_circuit::<BF, EF>(&mut cb, e, &tg, &bitt)?;
+                    RecursiveChallenger::<BF, EF>::observe_ext(&mut ch, &mut cb, t);
+                    tg[k] = Some(t);
                 }
                 Op::Sample => {
                     let t = RecursiveChallenger::<BF, EF>::sample(&mut ch, &mut cb);
+                    tg[k] = Some(t);
                     let tag = format!("t{k}");
                     cb.tag(t, tag.clone()).map_err(|e| format!("{e:?}"))?;
                     probes.push((k, "s", vec![tag]));
                 }
                 Op::SampleExt => {
                     let t = RecursiveChallenger::<BF, EF>::sample_ext(&mut ch, &mut cb);
+                    tg[k] = Some(t);
                     let tag = format!("t{k}");
                     cb.tag(t, tag.clone()).map_err(|e| format!("{e:?}"))?;
                     probes.push((k, "se", vec![tag]));
@@ -346,6 +564,7 @@ where
                 Op::Bits(n) => {
                     let bits = RecursiveChallenger::<BF, EF>::sample_bits(&mut ch, &mut cb, *n)
                         .map_err(|e| format!("{e:?}"))?;
+                    bitt.insert(k, bits.clone());
                     let mut tags = Vec::new();
                     for (j, b) in bits.iter().enumerate() {
                         let tag = format!("t{k}_{j}");
@@ -432,7 +651,7 @@ macro_rules! backend {
             }
             fn run(&self, ops: &[Op], alu: bool) -> CaseResult {
                 let rec: Rec<$P, $BF, $W> = Rec::new($perm);
-                let (native, native_panic) = run_native::<$BF, $EF, $P, $W, $R>(&rec, ops);
+                let (native, native_panic, resolved) = run_native::<$BF, $EF, $P, $W, $R>(&rec, ops);
                 let perm_calls_native = rec.log.lock().unwrap().len();
                 let rec_c = rec.clone();
                 let enable = move |$cb: &mut CircuitBuilder<$EF>| {
@@ -445,7 +664,7 @@ macro_rules! backend {
                 let mk = || -> CircuitChallenger<$W, $R, $C> { $mk };
                 let (cstatus, circuit) = run_circuit::<$BF, $EF, $C, $W, $R>(&enable, &mk, ops);
                 let perm_calls_circuit = rec.log.lock().unwrap().len() - perm_calls_native;
-                CaseResult { perm_calls_native, perm_calls_circuit, native, native_panic, cstatus, circuit, table: dedup_table(&rec.log) }
+                CaseResult { perm_calls_native, perm_calls_circuit, native, native_panic, cstatus, circuit, table: dedup_table(&rec.log), resolved }
             }
             fn grind(&self, prefix: &[Op], bits: usize, start: u64, want_accept: bool) -> Option<u64> {
                 let rec: Rec<$P, $BF, $W> = Rec::new($perm);
@@ -455,7 +674,7 @@ macro_rules! backend {
                     let w = (start + t) % p;
                     let mut ops = prefix.to_vec();
                     ops.push(Op::Pow(bits, w));
-                    let (outs, panicked) = run_native::<$BF, $EF, $P, $W, $R>(&rec, &ops);
+                    let (outs, panicked, _) = run_native::<$BF, $EF, $P, $W, $R>(&rec, &ops);
                     if panicked {
                         return None;
                     }
@@ -636,8 +855,16 @@ fn write_case(cases: &mut impl std::io::Write, id: &str, info: &CfgInfo, alu: bo
     for (i, o) in &r.table {
         writeln!(cases, "perm {} : {}", join(i), join(o)).unwrap();
     }
-    for op in ops {
-        writeln!(cases, "{}", op.line()).unwrap();
+    for (k, op) in ops.iter().enumerate() {
+        match op {
+            // the Lean models are value-level: a derived observe is an `observe_ext` of the value the
+            // native side computed from its own samples
+            Op::ObsDer(_) => {
+                let v = r.resolved.get(&k).cloned().unwrap_or_else(|| vec![0; info.d]);
+                writeln!(cases, "{}", Op::ObsExt(v).line()).unwrap()
+            }
+            _ => writeln!(cases, "{}", op.line()).unwrap(),
+        }
     }
     writeln!(cases, "end").unwrap();
 }
@@ -707,13 +934,120 @@ fn burst(rng: &mut Rng, rate: usize) -> usize {
     }
 }
 
+/// Indices of earlier ops a derived expression can refer to.
+#[derive(Default)]
+struct Avail {
+    se: Vec<usize>,
+    s: Vec<usize>,
+    o: Vec<usize>,
+    oe: Vec<usize>,
+    od: Vec<usize>,
+    /// (op index, number of bits >= 1)
+    sb: Vec<(usize, usize)>,
+}
+
+impl Avail {
+    fn of(ops: &[Op]) -> Self {
+        let mut a = Avail::default();
+        for (k, op) in ops.iter().enumerate() {
+            match op {
+                Op::SampleExt => a.se.push(k),
+                Op::Sample => a.s.push(k),
+                Op::Obs(_) => a.o.push(k),
+                Op::ObsExt(_) => a.oe.push(k),
+                Op::ObsDer(_) => a.od.push(k),
+                Op::Bits(n) if *n >= 1 => a.sb.push((k, *n)),
+                _ => {}
+            }
+        }
+        a
+    }
+    /// recent ops are preferred (the verifier combines the challenges it has just drawn)
+    fn pick(rng: &mut Rng, v: &[usize]) -> usize {
+        if v.len() > 3 && rng.chance(1, 2) { v[v.len() - 1 - rng.usize(3)] } else { *rng.pick(v) }
+    }
+    /// any earlier value: sampled ext / base, observed public input, earlier derived target
+    fn leaf(&self, rng: &mut Rng) -> Ex {
+        let pools: Vec<&Vec<usize>> = [&self.se, &self.se, &self.s, &self.o, &self.oe, &self.od].into_iter().filter(|v| !v.is_empty()).collect();
+        let pool = *rng.pick(&pools);
+        Ex::Ref(Self::pick(rng, pool))
+    }
+    /// D base values recomposed (base samples, sometimes an observed base value)
+    fn recomp(&self, rng: &mut Rng, d: usize) -> Option<Ex> {
+        let mut pool = self.s.clone();
+        if rng.chance(1, 3) {
+            pool.extend(&self.o);
+        }
+        if pool.is_empty() {
+            return None;
+        }
+        Some(Ex::Recomp((0..d).map(|_| *rng.pick(&pool)).collect()))
+    }
+    /// product / sum / mul_add of earlier values: a target WITHOUT coefficient provenance
+    fn arith(&self, rng: &mut Rng) -> Ex {
+        let (a, b) = (Box::new(self.leaf(rng)), Box::new(self.leaf(rng)));
+        match rng.below(4) {
+            0 => Ex::Add(a, b),
+            1 => Ex::MulAdd(a, b, Box::new(self.leaf(rng))),
+            _ => Ex::Mul(a, b),
+        }
+    }
+    /// a target whose base coefficients the builder already knows (sampled ext, recomposed, observed before)
+    fn known(&self, rng: &mut Rng, d: usize) -> Ex {
+        match rng.below(5) {
+            0 if !self.od.is_empty() => Ex::Ref(Self::pick(rng, &self.od)),
+            1 if !self.oe.is_empty() => Ex::Ref(Self::pick(rng, &self.oe)),
+            2 => self.recomp(rng, d).unwrap_or_else(|| Ex::Ref(Self::pick(rng, &self.se))),
+            _ => Ex::Ref(Self::pick(rng, &self.se)),
+        }
+    }
+    /// a target whose coefficients the builder does not know yet
+    fn unknown(&self, rng: &mut Rng) -> Ex {
+        self.arith(rng)
+    }
+}
+
+/// One derived observe (needs at least one earlier `se`; `sel` needs an earlier `sb n>=1`).
+fn gen_derived(rng: &mut Rng, a: &Avail, d: usize) -> Ex {
+    match rng.below(12) {
+        // (a) an earlier sampled extension challenge
+        0 => Ex::Ref(Avail::pick(rng, &a.se)),
+        // (b) product / sum / mul_add
+        1..=2 => a.arith(rng),
+        // (c) select on a sampled bit, all four known/unknown-coefficient shapes
+        3..=7 if !a.sb.is_empty() => {
+            let (k, n) = if rng.chance(2, 3) { *a.sb.last().unwrap() } else { *rng.pick(&a.sb) };
+            let j = rng.usize(n);
+            let (t, s) = match rng.below(6) {
+                0 | 1 => (a.unknown(rng), a.known(rng, d)),
+                2 | 3 => (a.known(rng, d), a.unknown(rng)),
+                4 => (a.known(rng, d), a.known(rng, d)),
+                _ => (a.unknown(rng), a.unknown(rng)),
+            };
+            Ex::Sel(k, j, Box::new(t), Box::new(s))
+        }
+        // (d) recomposed from earlier base samples
+        8..=9 => a.recomp(rng, d).unwrap_or_else(|| a.arith(rng)),
+        // (e) a target that was observed before (coefficient cache hit)
+        _ => {
+            if !a.od.is_empty() && rng.chance(2, 3) {
+                Ex::Ref(Avail::pick(rng, &a.od))
+            } else if !a.oe.is_empty() {
+                Ex::Ref(Avail::pick(rng, &a.oe))
+            } else {
+                a.arith(rng)
+            }
+        }
+    }
+}
+
 fn gen_history(rng: &mut Rng, be: &dyn Backend, max_ops: usize, hist: &mut BTreeMap<String, u64>) -> Vec<Op> {
     let info = be.info();
     let target = 1 + rng.usize(max_ops);
     let mut ops: Vec<Op> = Vec::new();
     while ops.len() < target {
         let room = target - ops.len();
-        match rng.below(20) {
+        match rng.below(23) {
             0..=5 => {
                 for _ in 0..burst(rng, info.r).min(room) {
                     ops.push(Op::Obs(gen_val(rng, info.p)));
@@ -757,11 +1091,44 @@ fn gen_history(rng: &mut Rng, be: &dyn Backend, max_ops: usize, hist: &mut BTree
                 let w = if bits == 0 { start } else { be.grind(&ops, bits, start, want).unwrap_or(start) };
                 ops.push(Op::Pow(bits, w));
             }
-            _ => ops.push(Op::Clear),
+            19 => ops.push(Op::Clear),
+            // derived observes, the way the verifier does (alpha^i, folded / selected values):
+            // make sure the sources exist, then observe 1..3 derived targets
+            _ => {
+                if !ops.iter().any(|o| matches!(o, Op::SampleExt)) || rng.chance(1, 3) {
+                    for _ in 0..1 + rng.usize(2) {
+                        ops.push(Op::SampleExt);
+                    }
+                }
+                if rng.chance(1, 3) {
+                    for _ in 0..info.d.min(1 + rng.usize(info.d)) {
+                        ops.push(Op::Sample);
+                    }
+                }
+                if !ops.iter().any(|o| matches!(o, Op::Bits(n) if *n >= 1)) || rng.chance(1, 2) {
+                    ops.push(Op::Bits(if rng.chance(3, 4) { 1 } else { 1 + rng.usize(4) }));
+                }
+                for _ in 0..1 + rng.usize(3) {
+                    let e = gen_derived(rng, &Avail::of(&ops), info.d);
+                    ops.push(Op::ObsDer(e));
+                }
+            }
         }
     }
     for o in &ops {
         *hist.entry(format!("op.{}", o.kind())).or_default() += 1;
+        if let Op::ObsDer(e) = o {
+            *hist.entry(format!("derived.{}", e.shape())).or_default() += 1;
+            if let Ex::Sel(_, _, t, s) = e {
+                // does the builder already hold base coefficients of the branch? (k = known, u = unknown)
+                let ku = |x: &Ex| match x {
+                    Ex::Recomp(_) => 'k',
+                    Ex::Ref(k) if matches!(ops[*k], Op::SampleExt | Op::ObsDer(_) | Op::ObsExt(_)) => 'k',
+                    _ => 'u',
+                };
+                *hist.entry(format!("derived.sel.t={}.s={}", ku(t), ku(s))).or_default() += 1;
+            }
+        }
     }
     ops
 }
@@ -777,8 +1144,10 @@ fn shrink(be: &dyn Backend, alu: bool, ops: &[Op], class: &str) -> Vec<Op> {
         let mut i = 0;
         while i < cur.len() && budget > 0 {
             budget -= 1;
-            let mut cand = cur.clone();
-            cand.remove(i);
+            let Some(cand) = remove_op(&cur, i) else {
+                i += 1; // a later derived observe refers to this op
+                continue;
+            };
             let r = be.run(&cand, alu);
             let same = judge(&info, alu, &cand, &r).map(|(c, _)| class_family(&c) == class_family(class)).unwrap_or(false);
             if same {
